@@ -455,3 +455,81 @@ Example c08_gen_nonvacuous :
     = [true; false; true] /\
   map q_emptyLocation (tab_vs (fun _ => 5%N) (fun _ _ => 0%N) s) = [false; false; false; true].
 Proof. vm_compute. repeat split; reflexivity. Qed.
+
+(* ---- Part 3b (work package W): which rows a removal batch deletes, from the SQL ------------
+   c08_batches_gap_free_full has the premise [contig_all] ("every removal batch leaves the volume
+   gap-free").  It is now DERIVED: tools/sqlgen translates forceDeleteVolumeSectors /
+   deleteVolumeSectors (mode "top-desc": the statement must be ... WHERE <p> ORDER BY
+   volume_index DESC LIMIT n, anything else is a hard error of the translator), SqlJoin.v
+   [sql_top_desc] states which rows ORDER BY k DESC LIMIT n hits, and BatchSql.v proves that a
+   batch hitting those rows of the canonical tables of a state leaves the volume gap-free.
+   [sql_driven la w init l]: every RemoveBatch of l carries the rows the generated selection
+   yields in the state it runs in (no row when deleteVolumeSectors refuses a non-empty volume);
+   the batch harness checks exactly this for every recorded batch (bcheck_sql). *)
+From HostdStorage Require Import BatchSql.
+
+Theorem c08_sql_batches_leave_gap_free : forall la w (l : list bop) (s : state),
+  inv s -> sql_driven la w s l = true -> contig_all s l = true.
+Proof. exact (fun la w l => sql_driven_contig la w l). Qed.
+Print Assumptions c08_sql_batches_leave_gap_free.
+
+(* ... hence the full statement, with no premise about the code: slot injectivity, indices
+   0..n-1, every counter equal to its recount, along every sequence of Store calls and batches
+   whose removal batches are the SQL's *)
+Theorem c08_batches_gap_free_from_sql : forall la w (l : list bop),
+  sql_driven la w init l = true ->
+  let s := bruns init l in
+  (forall v i v' i' r, slot_at s v i = Some (Some r) -> slot_at s v' i' = Some (Some r) -> v = v' /\ i = i') /\
+  (forall vl, In vl (vols s) -> map fst (vslots vl) = nseq 0%N (List.length (vslots vl))) /\
+  (forall vl, In vl (vols s) -> vused vl = n_used vl /\ vtotal vl = n_slots vl) /\
+  mTotal (mets s) = gsum n_slots (vols s) /\
+  mPhys (mets s) = gsum n_used (vols s) /\
+  mContract (mets s) = csum (cons s) /\
+  mTemp (mets s) = Z.of_nat (List.length (temps s)).
+Proof.
+  exact (fun la w l C =>
+    let I := sql_driven_inv la w l C in
+    conj (fun v i v' i' r => slot_injective (bruns init l) v i v' i' r I)
+      (conj (proj1 (Forall_forall _ _) (inv_contig (bruns init l) I))
+            (counters_exact (bruns init l) I))).
+Qed.
+Print Assumptions c08_batches_gap_free_from_sql.
+
+(* the ORDER BY is what does it: on a 12-slot volume the batch of the 5 lowest indices (what the
+   statement hit before 81dbba1) is not the generated selection, the 5 highest are *)
+Theorem c08_lowest_first_is_not_the_sql_selection :
+  let s := bruns init [P (AddVol 1 false); P (Grow 1 12)] in
+  sql_batch_ok (fun _ => 0%N) (fun _ _ => 0%N) s (RemoveBatch 1 true 5 [0; 1; 2; 3; 4]%N) = false /\
+  sql_batch_ok (fun _ => 0%N) (fun _ _ => 0%N) s (RemoveBatch 1 true 5 [11; 10; 9; 8; 7]%N) = true.
+Proof. exact lowest_first_not_sql_selection. Qed.
+Print Assumptions c08_lowest_first_is_not_the_sql_selection.
+
+(* ---- Part 4 (work package W): the read-only flag is the operator's ---------------------------
+   "New sectors are placed only on available, writable volumes" is about the flags in the database
+   (c08_placement_only_writable, c08_gen_placement_only_available_writable_free); whether they are
+   the flags the OPERATOR set depends on the volume manager, whose ResizeVolume makes a volume
+   read-only for the duration of a shrink.  StatusModel.v [resize_ro_calls] is that piece of
+   storage.go: the SetReadOnly calls a resize makes, given whether it shrinks and the flag it
+   found.  Tied to the code by the monitors resize-changed-operator-read-only-flag and
+   sector-placed-on-read-only-volume of the borrowed TestVerifC02 entry (operator SetReadOnly in
+   the generator, directed case 15), not by a recorded correspondence. *)
+From HostdStorage Require Import StatusModel StatusProofs.
+
+(* a resize, shrinking or not, of a volume in either state leaves the flag as it found it *)
+Theorem c08_resize_restores_read_only_flag : forall shrinking ro : bool,
+  ro_after ro (resize_ro_calls false shrinking ro) = ro.
+Proof. exact resize_restores_flag. Qed.
+Print Assumptions c08_resize_restores_read_only_flag.
+
+(* while it shrinks the volume is read-only: no sector is placed on a slot about to be deleted *)
+Theorem c08_shrink_runs_read_only : forall ro : bool,
+  match resize_ro_calls false true ro with [] => ro = true | b :: _ => b = true end.
+Proof. exact shrink_runs_read_only. Qed.
+Print Assumptions c08_shrink_runs_read_only.
+
+(* without the [!stat.ReadOnly] guard (seeded change C08-mut7) a shrink of a volume the operator
+   had set read-only ends with SetReadOnly(id, false) *)
+Theorem c08_resize_without_guard_refuted : exists shrinking ro : bool,
+  ro_after ro (resize_ro_calls true shrinking ro) <> ro.
+Proof. exact legacy_resize_drops_flag_refuted. Qed.
+Print Assumptions c08_resize_without_guard_refuted.
